@@ -31,6 +31,11 @@ def token_fetchers(c, chk, rid='R15.11'):
             if not p.calls('cfg_yylex'):
                 continue
             n += 1
+            tokv = ('c', pm.TOKENS['COMMENT'])
+            handed_on = p.end == 'ret' and not p.calls('cfg_error') and (p.retval == tokv or any(
+                e.kind == 'store' and e.val == tokv and sym.root_of(e.addr)[0] == 'p' for e in p.events))
+            if handed_on:
+                continue          # the fetch of the automaton itself, split off: the comment goes to the automaton (R15.1 judges what it does with it)
             if p.end != 'yield' or p.calls('cfg_error'):
                 bad = bad or (f, p)
     if bad is not None:
